@@ -565,9 +565,17 @@ func (tl *idTimesLoader) loadFromTSSPFiles(mst string, files *TSSPFiles) {
 	for _, f := range files.Files() {
 		select {
 		case fileLoadLimiter <- struct{}{}:
+			// The file is held like a cursor holds it until its id-times are read: a compaction or merge
+			// that replaces it meanwhile (ReplaceFiles takes only files.lock) would otherwise close it under
+			// the loader, a closed reader answers LoadIdTimes with nothing and no error, and the sequencer
+			// would count as loaded without the last flushed times of the series in that file.
+			f.Ref()
+			f.RefFileReader()
 			tl.wg.Add(1)
 			go func(file TSSPFile) {
 				defer func() {
+					file.UnrefFileReader()
+					file.Unref()
 					tl.wg.Done()
 					fileLoadLimiter.Release()
 				}()
